@@ -161,7 +161,7 @@ theorem C14_loop_order (prog : Prog) (fuel : Nat) (env env1 : Env) (p : Pat) (v 
   simp only [hm, hb]
 
 /-- non-vacuity: a shadowing `let` inside a block; afterwards the outer `x` is visible again -/
-example : evalExpr 10 ⟨[], [], []⟩ [("x", .int 1)]
+example : evalExpr 10 ⟨[], [], [], []⟩ [("x", .int 1)]
     (.block (.cons (.let_ (.ident "x") (.bool true)) (.cons (.expr (.var "x")) .nil))) =
     .ok (.bool true, [("x", .int 1)]) := by rfl
 
@@ -213,7 +213,7 @@ theorem C14_compiled_call_frame (call : Ctx) (fn : String) (args : ExprList) (be
   · simp at h
 
 /-- non-vacuity: `if c { x = 1u8; y = x; } else { y = 2u8; }` — both variables are merged -/
-example : bitStmts ⟨callAt ⟨[], [], []⟩ 0, fun _ => none⟩ [("c", .s .bool, [false]), ("x", .s (.int .u8), enc .u8 7), ("y", .s (.int .u8), enc .u8 0)]
+example : bitStmts ⟨callAt ⟨[], [], [], []⟩ 0, fun _ => none⟩ [("c", .s .bool, [false]), ("x", .s (.int .u8), enc .u8 7), ("y", .s (.int .u8), enc .u8 0)]
     (.cons (.expr (.ite (.var "c")
       (.block (.cons (.assign "x" .nil (.int 1 .u8)) (.cons (.assign "y" .nil (.var "x")) .nil)))
       (.block (.cons (.assign "y" .nil (.int 2 .u8)) .nil)))) .nil) =
